@@ -13,7 +13,7 @@ Driver family `timer` (C16).
 Script: operations separated by `;`, fields by `,`.  The first character of a session operation is
 the session (`a` | `b`):
   `aS,<k>,<idhex|->,<targethex|->,<delay>,<v|c<n>>`   send event `k`; payload = current x, or constant n
-  `aC,<idhex>`   cancel        `aA,<n>`   x := n        `aX`   terminate
+  `aC,<idhex>`   cancel        `aA,<n>`   x := n        `aX`   session thread ends     `aZ`   its timer sees Stop
   `T,<t>`        time passes to `t` and both timer threads run (session a first)
 Reply: `k:payload:time:via:sess,…` (or `.`) then ` pend=<a>,<b> err=<a>,<b>`.
 -/
@@ -78,7 +78,8 @@ def stepText (s : W) (t : String) : Option W :=
       | none => none
     else none
   | [h] =>
-    if h.length = 2 ∧ h.back = 'X' then sessStep s h.front .terminate else none
+    if h.length = 2 ∧ h.back = 'X' then sessStep s h.front .terminate
+    else if h.length = 2 ∧ h.back = 'Z' then sessStep s h.front .stop else none
   | _ => none
 
 def runScript (script : String) : Option W :=
